@@ -170,7 +170,7 @@ def check(run: common.Run):
     budget = 55 if run.tier == "quick" else 1500
     deadline = time.time() + budget
     jobs, meta = [], {}
-    step = {"quick": {"constants": 3, "functions": 6, "repo": 12, "constructs": 1}, "thorough": {}}[run.tier]
+    step = {"quick": {"constants": 1, "functions": 3, "repo": 5, "constructs": 1}, "thorough": {}}[run.tier]
     extra = [w for ws in list(WITNESS.values()) + list(FIXED_WITNESS.values()) for w in ws]
     fam["witnesses"] = extra
     for name in ("witnesses", "invalid", "indented", "tabs", "eof", "constructs", "constants", "functions", "repo"):
